@@ -68,8 +68,31 @@ func (x *Exec) VerifyFamily(fn *ssa.Function) (rep *FuncReport) {
 			sites = append(sites, &closureSite{frame: &fc, st: st.clone(), mc: mc, clo: c})
 		}
 	}
+	// normal returns of the compile function that hand back one of its own *Expr parameters
+	// instead of a new closure (x+0 -> x ...): alias returns, checked against the same contract
+	type aliasRet struct {
+		frame *Frame
+		r     exitRec
+		param *ssa.Parameter
+	}
+	var aliases []aliasRet
+	x.OnTopReturn = func(f *Frame, r exitRec) {
+		if f.fn != fn || len(r.results) != 1 {
+			return
+		}
+		rt, ok := r.results[0].(*smt.Term)
+		if !ok {
+			return
+		}
+		for _, p := range fn.Params {
+			if pv, ok := f.regs[p].(*smt.Term); ok && pv == rt && p.Type().String() == fn.Signature.Results().At(0).Type().String() {
+				aliases = append(aliases, aliasRet{f, r, p})
+			}
+		}
+	}
 	rep = x.VerifyFunc(fn)
 	x.OnMakeClosure = nil
+	x.OnTopReturn = nil
 	if rep.Error != "" {
 		return rep
 	}
@@ -144,6 +167,29 @@ func (x *Exec) VerifyFamily(fn *ssa.Function) (rep *FuncReport) {
 			x.checkClosure(sp, s, sig)
 		}()
 	}
+	for i, a := range aliases {
+		func() {
+			defer func() {
+				if r := recover(); r != nil {
+					var msg string
+					switch e := r.(type) {
+					case Unsupported:
+						msg = e.Error()
+					case SpecError:
+						msg = e.Error()
+					default:
+						panic(r)
+					}
+					x.prefix = QualName(fn)
+					x.sig = fmt.Sprintf("alias%d:%s", i+1, a.param.Name())
+					x.NoObl = 0
+					x.oblige("closure-not-analysable", msg, a.r.where, x.newState(), x.B.False())
+				}
+			}()
+			x.checkAlias(sp, a.frame, a.r, a.param, i+1)
+		}()
+	}
+	rep.Aliases = len(aliases)
 	// every FuncLit of the function must have been reached (no closure silently unmatched)
 	nlit := len(fn.AnonFuncs)
 	distinct := map[*ssa.Function]bool{}
@@ -1260,4 +1306,94 @@ func (x *Exec) dropQuantified(pc *smt.Term) *smt.Term {
 		}
 	}
 	return x.B.And(keep...)
+}
+
+// checkAlias: the compile function returned its own parameter p (an *Expr) on this path. The
+// contract's semantic equation must then hold with operand(p) as the denotation of the result:
+// for every kind the path allows and every run-time state, evaluating the contract expression and
+// evaluating operand(p) give the same value, the same calls and the same heap.
+func (x *Exec) checkAlias(sp *spec.FuncSpec, par *Frame, r exitRec, p *ssa.Parameter, n int) {
+	B := x.B
+	var exprC *spec.Clause
+	for _, c := range sp.Of("closure") {
+		if w := strings.Fields(c.Text); len(w) > 0 && w[0] == "expr" {
+			exprC = c
+		}
+	}
+	if exprC == nil {
+		specErr("alias return of %s: the contract has no 'closure expr' clause", p.Name())
+	}
+	e, err := spec.ParseExpr(strings.TrimSpace(strings.TrimPrefix(strings.TrimSpace(exprC.Text), "expr")))
+	if err != nil {
+		specErr("%v", err)
+	}
+	aliasE, _ := spec.ParseExpr("operand(" + p.Name() + ")")
+	par.cur, par.curIdx = nil, 0
+	pv := TV{par.regs[p], p.Type()}
+	typ := par.selectField(pv, "Type", r.st)
+	kt := x.kindOfXType(par, typ, r.st)
+	for k := uint64(kBool); k <= kString; k++ {
+		if KindType(k) == nil {
+			continue
+		}
+		create := r.st.clone()
+		create.PC = B.And(r.st.PC, B.Eq(kt, B.BVC(k, kt.S.W)))
+		facts, pins := propagate(create.PC)
+		if facts[-1] || create.PC.IsFalse() {
+			continue
+		}
+		x.prefix = QualName(par.fn)
+		x.sig = fmt.Sprintf("alias%d:%s,k=%s", n, p.Name(), kindNames[k])
+		x.famN++
+		run := x.newState()
+		run.lazy = &lazyHeap{base: B.Var(fmt.Sprintf("rtok%d", x.famN), RefS)}
+		run.PC = x.dropQuantified(create.PC)
+		fe := &famEnv{x: x, parent: par, create: create, facts: facts, pins: pins, memo: map[string]TV{}}
+		fe.env = B.Var(fmt.Sprintf("env%d", x.famN), RefS)
+		run.PC = B.And(run.PC, B.Neq(fe.env, B.IntC(0)))
+		x.fam = fe
+		nAssume := len(x.assumes)
+		func() {
+			defer func() {
+				x.fam = nil
+				x.assumes = x.assumes[:nAssume]
+			}()
+			mk := func() *Frame {
+				sf := x.newFrame(par.fn, nil)
+				sf.regs = par.regs
+				sf.outer = par
+				sf.entry = run
+				return sf
+			}
+			x.NoObl++
+			specSt := run.clone()
+			var want TV
+			undefined := ""
+			func() {
+				defer func() {
+					if r := recover(); r != nil {
+						if se, ok := r.(SpecError); ok && (strings.Contains(se.Error(), "not defined on") || strings.Contains(se.Error(), "on complex") || strings.Contains(se.Error(), "on composite")) {
+							undefined = se.Error()
+							return
+						}
+						panic(r)
+					}
+				}()
+				want = mk().eval(e, specSt, create)
+			}()
+			if undefined != "" {
+				// the operator does not exist in this kind: not a Go program, nothing to prove
+				x.NoObl--
+				x.note("alias returns: kinds for which Go does not define the operator are skipped (the property is about programs Go accepts)")
+				return
+			}
+			fe.memo = map[string]TV{}
+			gotSt := run.clone()
+			got := mk().eval(aliasE, gotSt, create)
+			x.NoObl--
+			goal := x.sameOutcome(exitRec{st: gotSt, results: []Value{got.V}}, []Value{want.V}, specSt)
+			goal = x.simplifyUnder(run.PC, goal)
+			x.oblige("alias", "returning "+p.Name()+" satisfies: "+exprC.Text, r.where, run, goal)
+		}()
+	}
 }
